@@ -6,6 +6,8 @@
 pub mod reconcile;
 #[path = "../repo/src/bin/copia/plan.rs"]
 pub mod plan;
+#[path = "../repo/src/bin/copia/wire.rs"]
+pub mod wire;
 
 #[cfg(kani)]
 mod harness {
@@ -118,6 +120,19 @@ mod harness {
         assert!(u32::from_le_bytes([b[4], b[5], b[6], b[7]]) == len);
         assert!(b[8] == code && b[9] == 1 && b[10] == 0 && b[11] == 0);
         kani::cover!(len > 16 * 1024 * 1024);
+    }
+
+    /// C03: the CAS gate commits exactly when the hub's current hash equals the hash the client said it last saw
+    /// (None = absent), for all 2 x 2 presence patterns and arbitrary 32-byte hashes
+    #[kani::proof]
+    fn c03_cas_decide_is_equality() {
+        use super::wire::{cas_decide, Cas};
+        let cur: Option<[u8; 32]> = if kani::any() { Some(kani::any()) } else { None };
+        let exp: Option<[u8; 32]> = if kani::any() { Some(kani::any()) } else { None };
+        let same = match (&cur, &exp) { (None, None) => true, (Some(a), Some(b)) => a == b, _ => false };
+        assert!((cas_decide(cur, exp) == Cas::Commit) == same);
+        kani::cover!(same && cur.is_some());
+        kani::cover!(!same && cur.is_some() && exp.is_some());
     }
 
     #[kani::proof]
